@@ -467,6 +467,15 @@ def r13_5(ctx):
     okp = len(pops) == 1 and "options.optimize" in {f.strip(".") for f in controlling_fields(ctx, mb, pops[0])}
     # the optimize test guarding the pop lies on every path
     r.ob("children builder pops exactly once under optimize", okp, C.mloc(mb, mb["blocks"][pops[0]]["term"]) if pops else "-", "pop in bb%s" % pops)
+    if okp:
+        # the builders push before *every* call of the children builder, so its optimize test (and with it the pop) must lie on every path through it
+        from .influence import switch_fields
+        tests = {a_ for (a_, s_) in g.transitive_control_branches(pops[0]) if "options.optimize" in {f.strip(".") for f in switch_fields(ctx, mb, a_)}}
+        on_all = bool(tests) and g.must_pass(tests)
+        esc = None if on_all else g.escaping_exit(tests)
+        r.ob("the pop is reached on every path through the children builder (under optimize)", on_all, C.mloc(mb, mb["blocks"][pops[0]]["term"]),
+             "the optimize test in bb%s is on every path" % sorted(tests) if on_all else
+             "a path returns (bb%s) before the optimize test that guards the pop: the flag pushed for this element stays on the stack and is popped by the enclosing element" % esc)
     # expression vs spread children: same treatment of identifiers
     idx = HirIndex(ch)
     fills = [n for n in walk(ch["body"]) if n.get("k") == "MethodCall" and n["method"] == "fill" and (field_path(strip_transparent(n["recv"])) or "").endswith("slot_flag_stack")
